@@ -400,6 +400,16 @@ class ASTSchemaPrinter:
                 not schema.subscription_type
                 or schema.subscription_type.name == "Subscription"
             )
+            # The schema definition can only be omitted if no other type
+            # would be picked up as a root type by its conventional name.
+            and not any(
+                name in schema.types and root_type is None
+                for name, root_type in (
+                    ("Query", schema.query_type),
+                    ("Mutation", schema.mutation_type),
+                    ("Subscription", schema.subscription_type),
+                )
+            )
         ):
             return ""
 
